@@ -208,9 +208,9 @@ func processQueryArithmeticNodeOp(queryOp *structs.QueryArithmetic, resMap map[u
 		} else if scalarValuePtr != nil {
 			isScalar = true
 			scalarValue = *scalarValuePtr
-		} else {
-			return fmt.Errorf("processQueryArithmeticNodeOp: processNodeExpr: result is empty and scalarValuePtr is nil")
 		}
+		// Otherwise the nested operation produced an empty instant vector (no series matched, or the time range
+		// holds no samples). That is a valid operand: the enclosing operation then has nothing to pair with.
 
 		// Generate a new hash by adding the operation counter
 		newHash := *exprSide + uint64(*operationCounter)
